@@ -2,6 +2,9 @@
    stdin lines:
      hist <op> <op> ...        op := a | s:<l|B>:<preset|->:<g|b>     (b: a header field fails validation)
                                      | p:<l|B>:<preset|->:<g|b>:<k>  send suspended after a partial write, k allocations, resumed
+                                     | z:<l|B>:<preset|->  send dropped at zero bytes      q:..  force_finish after a partial write
+                                     | f:<l|B>:<preset|->  write fails with an I/O error   x<n>  n allocations at once
+     hello pre=<k> reply=<same|other|none>
      reply <resp|err|unk|inv|rawunk|rawinv> serial=<n|-> sender=<hex|-|none> iface=.. member=.. object=.. sig=.. name=<hex> text=<hex|-|none>
    stdout:
      hist:  a:<serial> | s:<reported>:<serial on the wire>:<byte order flag> | e   ... (PANIC ends the line)
@@ -46,9 +49,20 @@ let () =
           (try
             List.iter (fun o ->
               if o <> "" then begin
+                if o.[0] = 'x' then begin
+                  (* n allocations at once: alloc_many, proved equal to n calls of alloc_serial (C13_alloc_many) *)
+                  let k = int_of_string (String.sub o 1 (String.length o - 1)) in
+                  match alloc_many (n_of_int k) !conn with
+                  | Ok (c, last) -> conn := c; out := ("x:" ^ string_of_int (int_of_n last)) :: !out
+                  | _ -> out := "PANIC" :: !out; raise Exit
+                end else
                 let (mop, fields) =
                   if o = "a" then (OpAlloc, Some [])
                   else match String.split_on_char ':' o with
+                    | [("z" | "q" | "f") as kind; bo; preset] ->
+                        let p = if preset = "-" then None else Some (n_of_int (int_of_string preset)) in
+                        (OpSendAbandoned (msg_of (if bo = "B" then BE else LE) p,
+                                          (if kind = "z" then DroppedAtZero else if kind = "q" then ForceFinished else IoError)), Some [])
                     | ["s"; bo; preset; g] ->
                         let p = if preset = "-" then None else Some (n_of_int (int_of_string preset)) in
                         (OpSend (msg_of (if bo = "B" then BE else LE) p), if g = "b" then None else Some [])
@@ -70,6 +84,11 @@ let () =
                      | EvSentResumed (_, between, rep, hb) ->
                          let flag = match hb with b :: _ -> int_of_n b | [] -> 0 in
                          out := (Printf.sprintf "p:%d:%s:%c:%s" (int_of_n rep) (show_on (wire_serial hb)) (Char.chr flag) (plus between)) :: !out
+                     | EvAbandoned (_, ser, hb) ->
+                         let flag = match hb with b :: _ -> int_of_n b | [] -> 0 in
+                         let kind = (match mop with OpSendAbandoned (_, DroppedAtZero) -> "z" | OpSendAbandoned (_, ForceFinished) -> "q" | _ -> "f") in
+                         out := (if kind = "q" then Printf.sprintf "q:%d:%s:%c" (int_of_n ser) (show_on (wire_serial hb)) (Char.chr flag)
+                                 else Printf.sprintf "%s:%d" kind (int_of_n ser)) :: !out
                      | EvSendErr (_, []) -> out := "e" :: !out
                      | EvSendErr (_, between) -> out := ("e:" ^ plus between) :: !out)
                 | _ -> out := "PANIC" :: !out; raise Exit
@@ -78,6 +97,21 @@ let () =
           Printf.printf "%s issued=%s nallocs=%d\n" (String.concat " " (List.rev !out))
             (String.concat "," (List.map (fun s -> string_of_int (int_of_n s)) (issued (List.rev !evs))))
             (int_of_n (nallocs (List.rev !mops)))
+      | "hello" :: rest ->
+          (* DuplexConn::send_hello after pre allocations: the serial of the Hello and whether the reply is accepted *)
+          let kv = kv_of rest in
+          let pre = int_of_string (List.assoc "pre" kv) in
+          let c0 = if pre = 0 then Ok (conn_init, N0) else alloc_many (n_of_int pre) conn_init in
+          (match c0 with
+           | Ok (c, _) ->
+               (match step (fun _ -> Some []) c (OpSend (msg_of LE None)) with
+                | Ok (_, EvSent (_, ser, _)) ->
+                    let rs = match List.assoc "reply" kv with
+                      | "same" -> Some ser | "other" -> Some (n_of_int (int_of_n ser + 1)) | _ -> None in
+                    Printf.printf "hello serial=%d result=%s\n" (int_of_n ser)
+                      (if hello_matches ser { dh_default with dh_response_serial = rs } then "ok" else "err")
+                | _ -> print_endline "PANIC")
+           | _ -> print_endline "PANIC")
       | "reply" :: kind :: rest ->
           let kv = kv_of rest in
           let g k = List.assoc k kv in
